@@ -269,7 +269,7 @@ Proof. exact negative_weights_err. Qed.
    of ALL public functions is DESIGN.md, section 0.10.11. *)
 From GV Require Import Model.Components Model.Scc Model.Cluster Model.ClusterW Model.Square Model.Partition
      Model.Eigen Model.Cent Model.Brandes Model.Closeness Model.Louvain Spec.PartitionDef
-     Proofs.LouvainModelOk Proofs.TotalAll.
+     Proofs.LouvainModelOk Proofs.TotalAll Proofs.LouvainTotal.
 
 Section C20_rollup.
   Context {T A : Type}.
@@ -441,22 +441,24 @@ Section C20_rollup.
     exists m, closeness_centrality teqb tltb lw g weighted wf_improved = Ok m.
   Proof. exact (total_closeness_centrality teqb tltb teqb_spec tltb_asym tltb_total). Qed.
 
-  (* ---- louvain_partitions / louvain_communities.  PARTIAL.  Proved: with level fuel > N and sweep
-     fuel >= N^N the model never runs out of fuel; a returned value is a chain of nested partitions;
-     louvain_communities then returns the last level (never Err NoPartitions).  Hypotheses C20 does
-     not grant: no negative weight when weighted (weights_ok), resolution >= 0.  NOT proved: that no
-     Panic site is reached (internal unwraps of louvain.rs; the model's shuffle table [perms] must have
-     a well-formed row per node count - C20_total_louvain_example shows the site).  Sweep + the
-     per-case model comparison of C13. ---- *)
+  (* ---- louvain_partitions / louvain_communities: both RETURN a value - no Panic site (the
+     unwraps on internal lookups of louvain.rs, the constructor Results, modularity's Result), no fuel
+     exhaustion, no Err (not even NoPartitions) - and the value is a chain of nested partitions whose
+     last level louvain_communities returns.  Fuel (arguments of the model): level fuel > N, sweep
+     fuel >= N^N.  [perms] is the model's oracle for the seeded shuffle: a row of k indexes < k for
+     every node count k <= N (shuffle_ok).  PARTIAL: hypotheses C20 does not grant are weights_ok
+     (weighted = true: every edge has a weight and none is negative) and resolution >= 0.  On the
+     excluded inputs the model either returns (negative weights with non-zero total, negative
+     resolution) or reports a model-domain site (NaN weight; total weight 0 with non-zero terms):
+     C20_total_louvain_example.  Proofs/LouvainTotal.v. ---- *)
   Theorem C20_total_louvain_partial : forall lf sf (g : gstate) weighted res thr perms,
     WF g -> weights_ok g weighted -> (0 <= res)%Q ->
     (List.length (nodes_vec g) < lf)%nat -> (List.length (nodes_vec g) ^ List.length (nodes_vec g) <= sf)%nat ->
-    louvain_partitions teqb tltb lf sf g weighted res thr perms <> OutOfFuel /\
-    louvain_communities teqb tltb lf sf g weighted res thr perms <> OutOfFuel /\
-    (forall ls, louvain_partitions teqb tltb lf sf g weighted res thr perms = Ok ls ->
-       levels_ok (map nname (nodes_vec g)) ls /\
-       louvain_communities teqb tltb lf sf g weighted res thr perms = Ok (last ls [])).
-  Proof. exact (louvain_partial teqb tltb teqb_spec tltb_asym tltb_total). Qed.
+    shuffle_ok perms (List.length (nodes_vec g)) ->
+    exists ls, louvain_partitions teqb tltb lf sf g weighted res thr perms = Ok ls /\
+               levels_ok (map nname (nodes_vec g)) ls /\
+               louvain_communities teqb tltb lf sf g weighted res thr perms = Ok (last ls []).
+  Proof. exact (louvain_total teqb tltb teqb_spec tltb_asym tltb_total). Qed.
 End C20_rollup.
 
 (* ---- generators (their arguments are numbers, not graphs) ---- *)
@@ -593,10 +595,25 @@ Proof. exact total_centrality_example. Qed.
 Theorem C20_total_louvain_example :
   WF Z.eqb Z.ltb t_gT /\ weights_ok t_gT true /\ weights_ok t_gT false /\ (0 <= 1)%Q /\
   (List.length (nodes_vec t_gT) < 4)%nat /\ (List.length (nodes_vec t_gT) ^ List.length (nodes_vec t_gT) <= 27)%nat /\
+  shuffle_ok t_perms3 (List.length (nodes_vec t_gT)) /\
   louvain_partitions Z.eqb Z.ltb 4 27 t_gT true 1 (1 # 10000000)%Q t_perms3 = Ok [[[2; 1; 3]]]%Z /\
   louvain_communities Z.eqb Z.ltb 4 27 t_gT false 1 (1 # 10000000)%Q t_perms3 = Ok [[1; 3; 2]]%Z /\
+  (* directed, and multi-edge (collapsed by to_single_edges first), five nodes, fuel 6 and 5^5 *)
+  louvain_communities Z.eqb Z.ltb 6 3125 t_gD false 1 (1 # 10000000)%Q t_perms5 = Ok [[1; 7]; [3; 5]; [9]]%Z /\
+  louvain_communities Z.eqb Z.ltb 6 3125 t_gM false 1 (1 # 10000000)%Q t_perms5 = Ok [[1; 7]; [3; 5]; [9]]%Z /\
+  (* what the hypotheses exclude, evaluated: an ill-formed shuffle table (the model's own oracle) ... *)
   louvain_partitions Z.eqb Z.ltb 4 27 t_gT true 1 (1 # 10000000)%Q [[0%nat]] =
-    Panic "model: shuffle table has no row for this node count".
+    Panic "model: shuffle table has no row for this node count" /\
+  (* ... weighted = true with an edge without weight, or with weights 1 and -1 adding up to 0:
+     model-domain sites (no NaN / inf arithmetic in the exact model) ... *)
+  ~ weights_ok t_gN true /\
+  louvain_partitions Z.eqb Z.ltb 6 3125 t_gN true 1 (1 # 10000000)%Q t_perms5 = Panic nan_site /\
+  louvain_partitions Z.eqb Z.ltb 6 3125 t_gZ true 1 (1 # 10000000)%Q t_perms5 = Panic modularity_domain_site /\
+  (* ... while other inputs outside the hypotheses just return: negative weights with a non-zero
+     total, a negative resolution *)
+  ~ weights_ok t_gU true /\
+  louvain_partitions Z.eqb Z.ltb 6 3125 t_gU true 1 (1 # 10000000)%Q t_perms5 = Ok [[[1; 7]; [3; 5]; [9]]]%Z /\
+  louvain_partitions Z.eqb Z.ltb 6 3125 t_gU false (-1) (1 # 10000000)%Q t_perms5 = Ok [[[3; 7; 5; 1]; [9]]]%Z.
 Proof. exact total_louvain_example. Qed.
 
 (* generators and GraphML: arguments outside the "valid" range, evaluated *)
